@@ -22,7 +22,7 @@ pub fn def() -> PropDef {
 
 fn meta(_ctx: &Ctx) -> EvidenceMeta {
     EvidenceMeta {
-        rule: "modules with 1-400 (thorough: 5000) functions of equal and unequal size, valid and mutated-invalid (errors inside some function bodies), with passive data + memory.init users; each parsed+emitted by the serial build (co-process) and by the parallel build inside scoped rayon pools of 1,2,3,4,8,16 threads, repeated, with seeded yields/sleeps injected from inside the parallel closures (on_instr_loc callback during parse, log sink on the per-function 'emit function' record during emit). non-trivial = module has >= 8 functions and pools with >= 2 threads ran; distinct by input bytes. Oracle: identical accept/reject decision and byte-identical output for every pool size and repeat.".into(),
+        rule: "modules with 1-400 (thorough: 5000) functions of equal and unequal size, valid and mutated-invalid (errors inside some function bodies), with passive data + memory.init users; each parsed+emitted by the serial build (co-process) and by the parallel build inside scoped rayon pools of 1,2,3,4,8,16 threads, repeated, and once more with the GC pass between parse and emit (pools 1,3,16), with seeded yields/sleeps injected from inside the parallel closures (on_instr_loc callback during parse, log sink on the per-function 'emit function' record during emit). non-trivial = module has >= 8 functions and pools with >= 2 threads ran; distinct by input bytes. Oracle: identical accept/reject decision and byte-identical output for every pool size and repeat.".into(),
         assumptions: vec![
             "rayon schedules are sampled with perturbation, not enumerated: a violation that needs one specific interleaving can be missed".into(),
             "the serial reference is the same harness built without walrus/parallel".into(),
@@ -48,7 +48,11 @@ pub fn server_main() -> i32 {
         if inp.read_exact(&mut buf).is_err() {
             return 0;
         }
-        let line = match serial_answer(&buf) {
+        // first byte: 0 = parse+emit, 1 = parse+GC+emit
+        if buf.is_empty() {
+            return 0;
+        }
+        let line = match serial_answer(&buf[1..], buf[0] == 1) {
             Ok(Some(b)) => format!("ok {} {}\n", fnv(&b), b.len()),
             Ok(None) => "rejected\n".to_string(),
             Err(f) => format!("panic {}\n", f.signature.replace(' ', "_")),
@@ -59,12 +63,15 @@ pub fn server_main() -> i32 {
     }
 }
 
-fn serial_answer(bytes: &[u8]) -> Result<Option<Vec<u8>>, Failure> {
+fn serial_answer(bytes: &[u8], gc: bool) -> Result<Option<Vec<u8>>, Failure> {
     let cfg = crate::wal::Cfg::plain().to_config();
     let mut m = match crate::wal::parse(bytes, &cfg)? {
         Ok(m) => m,
         Err(_) => return Ok(None),
     };
+    if gc {
+        crate::wal::gc(&mut m)?;
+    }
     crate::wal::emit(&mut m).map(Some)
 }
 
@@ -80,7 +87,7 @@ thread_local! {
 
 static SPAWNED: Mutex<Vec<u32>> = Mutex::new(Vec::new());
 
-fn ask_serial(bytes: &[u8]) -> Option<String> {
+fn ask_serial(bytes: &[u8], gc: bool) -> Option<String> {
     use std::io::BufRead;
     SERVER.with(|s| {
         let mut s = s.borrow_mut();
@@ -99,7 +106,8 @@ fn ask_serial(bytes: &[u8]) -> Option<String> {
             *s = Some(Server { child, stdin, stdout });
         }
         let srv = s.as_mut()?;
-        srv.stdin.write_all(&(bytes.len() as u32).to_le_bytes()).ok()?;
+        srv.stdin.write_all(&(bytes.len() as u32 + 1).to_le_bytes()).ok()?;
+        srv.stdin.write_all(&[gc as u8]).ok()?;
         srv.stdin.write_all(bytes).ok()?;
         srv.stdin.flush().ok()?;
         let mut line = String::new();
@@ -158,7 +166,7 @@ mod par {
         log::set_max_level(log::LevelFilter::Debug);
     }
 
-    pub fn run_once(bytes: &[u8], threads: usize, salt: u64) -> Result<Option<Vec<u8>>, Failure> {
+    pub fn run_once(bytes: &[u8], threads: usize, salt: u64, gc: bool) -> Result<Option<Vec<u8>>, Failure> {
         SALT.store(salt, Ordering::Relaxed);
         let pool = rayon::ThreadPoolBuilder::new()
             .num_threads(threads)
@@ -174,6 +182,9 @@ mod par {
                 Ok(m) => m,
                 Err(_) => return Ok(None),
             };
+            if gc {
+                crate::wal::gc(&mut m)?;
+            }
             crate::wal::emit(&mut m).map(Some)
         })
     }
@@ -231,7 +242,11 @@ pub fn check(ctx: &Ctx, input: &Input) -> CaseResult {
         None => return Ok(out),
     };
     out.hash = fnv(&bytes);
-    let serial = match ask_serial(&bytes) {
+    let mut plain_serial = String::new();
+    // both builds also run the GC pass between parse and emit (entities are
+    // deleted, so the emitter walks arenas with holes) under fewer pools
+    for gc in [false, true] {
+    let serial = match ask_serial(&bytes, gc) {
         Some(s) => s,
         None => {
             return Err(Failure::new(
@@ -244,14 +259,20 @@ pub fn check(ctx: &Ctx, input: &Input) -> CaseResult {
         out.label("skip:serial-build-panicked(C02/C05)");
         return Ok(out);
     }
-    let repeats = ctx.tier.pick(2, 6);
-    for threads in [1usize, 2, 3, 4, 8, 16] {
+    if !gc {
+        plain_serial = serial.clone();
+    } else if serial.starts_with("ok") {
+        out.label("gc-between-parse-and-emit");
+    }
+    let repeats = if gc { 1 } else { ctx.tier.pick(2, 6) };
+    let pools: &[usize] = if gc { &[1, 3, 16] } else { &[1, 2, 3, 4, 8, 16] };
+    for &threads in pools {
         for rep in 0..repeats {
             let salt = mix(out.hash, (threads * 131 + rep) as u64);
-            let r = par::run_once(&bytes, threads, salt).map_err(|f| {
+            let r = par::run_once(&bytes, threads, salt, gc).map_err(|f| {
                 Failure::new(
                     format!("parallel-{}", f.signature),
-                    format!("{} [threads={} repeat={} {} functions {}]", f.detail, threads, rep, nf, origin),
+                    format!("{} [threads={} repeat={} gc={} {} functions {}]", f.detail, threads, rep, gc, nf, origin),
                 )
             })?;
             let got = match &r {
@@ -267,20 +288,22 @@ pub fn check(ctx: &Ctx, input: &Input) -> CaseResult {
                 return Err(Failure::new(
                     kind,
                     format!(
-                        "serial build: {}; parallel build with {} threads (repeat {}): {} [{} functions, {}]",
-                        serial, threads, rep, got, nf, origin
+                        "serial build: {}; parallel build with {} threads (repeat {}): {} [{} functions, gc={}, {}]",
+                        serial, threads, rep, got, nf, gc, origin
                     ),
                 ));
             }
         }
     }
+    }
+    let serial = plain_serial;
     out.label(if serial.starts_with("ok") { "verdict:accepted" } else { "verdict:rejected" });
     if nf >= 32 {
         out.label("functions>=32");
     }
     out.nontrivial = nf >= 8;
     if out.nontrivial && out.hash % 8 == 0 {
-        out.sample = Some(json!({"origin": origin, "bytes": bytes.len(), "functions": nf, "serial": serial, "pools": [1,2,3,4,8,16], "repeats": repeats}));
+        out.sample = Some(json!({"origin": origin, "bytes": bytes.len(), "functions": nf, "serial": serial, "pools": [1,2,3,4,8,16], "repeats": ctx.tier.pick(2, 6), "gc_pools": [1,3,16]}));
     }
     Ok(out)
 }
